@@ -113,6 +113,21 @@ def link_twins(ctx, after, api):
     r1 = scn.link_to("first", first)
     if not expect_sri(ctx, r1, data, "Sha256", tag + ":link1", "link_to of the first file"):
         return
+    if after == "first-removed-relink":
+        # the first target disappears (its content symlink now dangles), then an intact file with the same bytes
+        # is linked: the call may refuse (a returned error is truthful), but if it reports success the new key
+        # and the returned address must read back the intact file's bytes
+        scn.fs_remove(first)
+        r2 = scn.link_to("second", second)
+        if not expect_no_panic(ctx, r2, tag + ":link2", "link_to of an intact twin after the first target was removed"):
+            return
+        if r2.kind != "ok":
+            return
+        if not expect_sri(ctx, r2, data, "Sha256", tag + ":link2", "link_to of an intact twin after the first target was removed"):
+            return
+        expect_bytes(ctx, scn.read("second"), data, tag + ":read-second", "read of the entry that link_to reported as linked to an intact file")
+        expect_bytes(ctx, scn.read_hash(r2.value), data, tag + ":read-hash", "read by the address link_to returned for an intact file")
+        return
     r2 = scn.link_to("second", second)
     if not expect_sri(ctx, r2, data, "Sha256", tag + ":link2", "link_to of an identical second file"):
         return
@@ -218,7 +233,7 @@ def tasks(tier, flavours):
                 if tier == "quick" and fl != "sync" and not keyed:
                     continue
                 out.append(dict(module="C19", family="link_family", flavour=fl, params=dict(keyed=keyed, relative="dotdot", partial=False, after=after, api=api)))
-        for after in ("second-removed", "second-rewritten"):
+        for after in ("second-removed", "second-rewritten", "first-removed-relink"):
             out.append(dict(module="C19", family="link_twins", flavour=fl, params=dict(after=after, api=api)))
         for which in ("size", "integrity", "existing-content", "multi-wrong-strong", "multi-right"):
             out.append(dict(module="C19", family="link_options", flavour=fl, params=dict(which=which, api=api)))
